@@ -918,6 +918,18 @@ func (c *Ctx) makeIface(v *Val, t types.Type) *Val {
 	var args, sorts []string
 	c.flatten(v, &args, &sorts)
 	fn := quoteSym("mkiface|" + typeKey(v.T))
+	if _, isPtr := v.T.Underlying().(*types.Pointer); isPtr && v.K == VScalar && v.Loc == nil {
+		// an interface holding a non-nil pointer is identified with that pointer, so that
+		// ghost facts about the interface value and about the pointer coincide; a nil
+		// pointer still makes a non-nil interface
+		nilc := quoteSym("nilptr_iface|" + typeKey(v.T))
+		c.declare(nilc, "Int")
+		c.asserts = append(c.asserts, sNot(sEq(nilc, "0")))
+		s := sIte(sEq(v.S, "0"), nilc, v.S)
+		c.declareFun("dyntype", []string{"Int"}, "Int")
+		c.assumeHere(sEq(sApp("dyntype", s), c.typeTag(v.T)))
+		return &Val{K: VScalar, T: t, S: c.define("iface", "Int", s)}
+	}
 	if len(args) == 0 {
 		n := fn + "!c"
 		c.declare(n, "Int")
